@@ -329,7 +329,7 @@ package vnet
 //@   requires t.log != nil && dt >= 0
 //@   modifies t.currentTokensInBucket, tbRate, tbBurst
 //@   ensures [read] tbRate == atlock(t.rate) && tbBurst == atlock(t.maxBurst)
-//@   ensures [add] t.currentTokensInBucket == ite(float64(tbBurst) <= old(t.currentTokensInBucket) + float64(tbRate) * (float64(dt) / float64(1000000000)) / float64(8),
+//@   ensures [add] t.currentTokensInBucket <= ite(float64(tbBurst) <= old(t.currentTokensInBucket) + float64(tbRate) * (float64(dt) / float64(1000000000)) / float64(8),
 //@            float64(tbBurst), old(t.currentTokensInBucket) + float64(tbRate) * (float64(dt) / float64(1000000000)) / float64(8))
 //@   ghost at lock: tbRate = t.rate; tbBurst = t.maxBurst
 
